@@ -20,7 +20,10 @@
 // struct copied by value, an unkeyed
 // literal of a tracked struct, a tracked field that no longer has any site.
 // Fields of the message types the components send each other are handled
-// separately (see msgStructs).
+// separately (see msgStructs).  Package-level variable initialisers and init()
+// are walked as the node "<init>"; the functions that are used as values or
+// started with `go` are listed (escaping), so that the Coq side may let an
+// unclassified function inherit the components of its callers.
 //
 // usage: goaccess2v <dir of pkg/cmd>   (run with the module root as cwd)
 package main
@@ -83,15 +86,17 @@ type site struct {
 }
 
 type tr struct {
-	fset   *token.FileSet
-	info   *types.Info
-	sites  []site
-	calls  map[[2]string]bool
-	lits   map[string]string // function literal -> kind
-	alias  map[string]string // struct.field holding the address of a cell -> cell
-	pend   []pendingAlias
-	skel   []string
-	locked map[string]bool // function name -> body starts with r.Lock(); defer r.Unlock()
+	fset     *token.FileSet
+	info     *types.Info
+	sites    []site
+	calls    map[[2]string]bool
+	lits     map[string]string // function literal -> kind
+	alias    map[string]string // struct.field holding the address of a cell -> cell
+	pend     []pendingAlias
+	skel     []string
+	escaping []string
+	locked   map[string]string // function name -> <x> when the body starts with <x>.Lock(); defer <x>.Unlock()
+	curExpr  string            // text of the selector being classified
 }
 
 type pendingAlias struct {
@@ -149,7 +154,9 @@ func (t *tr) pos(p token.Pos) string {
 }
 
 func (t *tr) add(cell, kind, sync, fn string, p token.Pos) {
-	if sync == "Plain" && t.locked[fn] && strings.HasPrefix(cell, "workerRegistry.") {
+	// under the registry mutex: the function locks <x> first thing and the
+	// access goes through <x> (r.mu.workers with r or r.mu locked)
+	if lx := t.locked[fn]; sync == "Plain" && lx != "" && strings.HasPrefix(cell, "workerRegistry.") && strings.HasPrefix(t.curExpr, lx+".") {
 		sync = "Locked"
 	}
 	t.sites = append(t.sites, site{cell, kind, sync, fn, t.pos(p)})
@@ -228,6 +235,7 @@ func (t *tr) formatCall(call *ast.CallExpr) bool {
 // classify one occurrence of a tracked cell: expr is the selector (or the
 // dereference of an alias field); stack is the chain of ancestors.
 func (t *tr) classify(cell string, expr ast.Expr, stack []ast.Node, fn string) {
+	t.curExpr = types.ExprString(expr)
 	// climb through parentheses and index expressions
 	e := expr
 	i := len(stack) - 1
@@ -427,37 +435,49 @@ func callIs(call *ast.CallExpr, names ...string) string {
 	return ""
 }
 
-// lockedPrefix: the body starts with `r.Lock()` and `defer r.Unlock()`.
-func lockedPrefix(fd *ast.FuncDecl) bool {
-	if fd.Body == nil || len(fd.Body.List) < 2 {
-		return false
+// lockedPrefix: the body starts with `<x>.Lock()` and `defer <x>.Unlock()`,
+// where <x> is the method's receiver or a field path of it (r, r.mu); returns
+// the text of <x> ("" if the body does not start that way).
+func lockedPrefix(fd *ast.FuncDecl) string {
+	if fd.Body == nil || len(fd.Body.List) < 2 || fd.Recv == nil || len(fd.Recv.List) != 1 || len(fd.Recv.List[0].Names) != 1 {
+		return ""
 	}
 	es, ok := fd.Body.List[0].(*ast.ExprStmt)
 	if !ok {
-		return false
+		return ""
 	}
 	c1, ok := es.X.(*ast.CallExpr)
 	if !ok || callIs(c1, "Lock") == "" {
-		return false
+		return ""
 	}
 	ds, ok := fd.Body.List[1].(*ast.DeferStmt)
 	if !ok || callIs(ds.Call, "Unlock") == "" {
-		return false
+		return ""
 	}
 	r1, ok1 := c1.Fun.(*ast.SelectorExpr)
 	r2, ok2 := ds.Call.Fun.(*ast.SelectorExpr)
 	if !ok1 || !ok2 {
-		return false
+		return ""
 	}
-	i1, ok1 := r1.X.(*ast.Ident)
-	i2, ok2 := r2.X.(*ast.Ident)
-	return ok1 && ok2 && i1.Name == i2.Name
+	x1, x2 := types.ExprString(r1.X), types.ExprString(r2.X)
+	recv := fd.Recv.List[0].Names[0].Name
+	if x1 != x2 || (x1 != recv && !strings.HasPrefix(x1, recv+".")) {
+		return ""
+	}
+	return x1
 }
+
+// initNode names what runs before main: package-level variable initialisers
+// and init() functions.
+const initNode = "<init>"
 
 func (t *tr) walkFunc(fd *ast.FuncDecl) {
 	top := recvName(fd)
-	if lockedPrefix(fd) {
-		t.locked[top] = true
+	if fd.Recv == nil && fd.Name.Name == "init" {
+		top = initNode
+	}
+	if lx := lockedPrefix(fd); lx != "" {
+		t.locked[top] = lx
 	}
 	// phases of the two functions that span several components: conduct
 	// (before the audition is started / while the workers run / after
@@ -665,6 +685,77 @@ func (t *tr) resolveAliases() {
 		}
 		t.classify(cell, st, p.stack[:len(p.stack)-1], p.fn)
 	}
+}
+
+// findEscaping lists the functions of the package that are used other than
+// by calling them on the spot: as a function value (stored, passed, method
+// value) or as the operand of a go statement.  Such a function may run in a
+// goroutine other than its callers', so its classification is never inherited.
+func (t *tr) findEscaping(files []*ast.File) {
+	esc := map[string]bool{}
+	nameOf := func(obj types.Object) string {
+		fn, ok := obj.(*types.Func)
+		if !ok || fn.Pkg() == nil || fn.Pkg().Path() != pkgPath {
+			return ""
+		}
+		if recv := fn.Type().(*types.Signature).Recv(); recv != nil {
+			if n := namedOf(recv.Type()); n != nil {
+				if _, isIface := n.Underlying().(*types.Interface); isIface {
+					return "app." + fn.Name()
+				}
+				return n.Obj().Name() + "." + fn.Name()
+			}
+			return "app." + fn.Name()
+		}
+		return fn.Name()
+	}
+	for _, f := range files {
+		var stack []ast.Node
+		ast.Inspect(f, func(n ast.Node) bool {
+			if n == nil {
+				stack = stack[:len(stack)-1]
+				return true
+			}
+			var obj types.Object
+			var e ast.Expr
+			switch x := n.(type) {
+			case *ast.Ident:
+				obj, e = t.info.Uses[x], x
+				// the Sel of a selector is handled with the selector
+				if len(stack) > 0 {
+					if p, ok := stack[len(stack)-1].(*ast.SelectorExpr); ok && p.Sel == x {
+						obj = nil
+					}
+				}
+			case *ast.SelectorExpr:
+				obj, e = t.info.Uses[x.Sel], x
+			}
+			if obj != nil {
+				if name := nameOf(obj); name != "" {
+					called := false
+					if len(stack) > 0 {
+						if c, ok := stack[len(stack)-1].(*ast.CallExpr); ok && c.Fun == e {
+							called = true
+							if len(stack) > 1 {
+								if _, ok := stack[len(stack)-2].(*ast.GoStmt); ok {
+									called = false
+								}
+							}
+						}
+					}
+					if !called {
+						esc[name] = true
+					}
+				}
+			}
+			stack = append(stack, n)
+			return true
+		})
+	}
+	for n := range esc {
+		t.escaping = append(t.escaping, n)
+	}
+	sort.Strings(t.escaping)
 }
 
 // ---------------------------------------------------------------------------
@@ -1125,7 +1216,7 @@ func main() {
 	if len(terrs) > 0 {
 		fail(nil, 0, "the package does not type-check: %s", strings.Join(terrs, "; "))
 	}
-	t := &tr{fset: fset, info: info, calls: map[[2]string]bool{}, lits: map[string]string{}, alias: map[string]string{}, locked: map[string]bool{}}
+	t := &tr{fset: fset, info: info, calls: map[[2]string]bool{}, lits: map[string]string{}, alias: map[string]string{}, locked: map[string]string{}}
 	for _, f := range files {
 		for _, d := range f.Decls {
 			if fd, ok := d.(*ast.FuncDecl); ok && fd.Body != nil {
@@ -1133,7 +1224,24 @@ func main() {
 			}
 		}
 	}
+	// package-level variable initialisers run before main, like init()
+	for _, f := range files {
+		for _, d := range f.Decls {
+			gd, ok := d.(*ast.GenDecl)
+			if !ok || gd.Tok != token.VAR {
+				continue
+			}
+			for _, sp := range gd.Specs {
+				vs := sp.(*ast.ValueSpec)
+				for _, v := range vs.Values {
+					t.walkFunc(&ast.FuncDecl{Name: ast.NewIdent("init"),
+						Body: &ast.BlockStmt{List: []ast.Stmt{&ast.ExprStmt{X: v}}}})
+				}
+			}
+		}
+	}
 	t.resolveAliases()
+	t.findEscaping(files)
 	// every tracked cell must exist as a field (a renamed field must not
 	// silently vanish from the site list)
 	seen := map[string]bool{}
@@ -1219,6 +1327,12 @@ func main() {
 	}
 	sort.Strings(al)
 	sb.WriteString("Definition aliases : list (string * string) := [" + strings.Join(al, "; ") + "].\n\n")
+	items = nil
+	for _, e := range t.escaping {
+		items = append(items, coqStr(e))
+	}
+	sb.WriteString("(* functions used as values or started with `go`: never classified by inheritance *)\n")
+	sb.WriteString("Definition escaping : list string :=\n  [" + strings.Join(items, ";\n   ") + "].\n\n")
 	items = nil
 	for _, s := range t.skel {
 		items = append(items, coqStr(s))
